@@ -107,22 +107,28 @@ class DocGen:
         return {"cols": names, "rows": rows}
 
     def group_runs(self, nrows: int, levels: int, contiguous: bool = True, dividers: bool = False, nulls: bool = False):
-        """levels columns of group keys; nested runs; returns list of per-level value lists."""
+        """levels columns of group keys; nested runs; returns list of per-level value lists.
+
+        Inner labels restart under every outer run with probability 1/2, so that an outer level can
+        change while the inner values stay the same ((A1,B1) -> (A2,B1))."""
         r = self.r
         cols = [[] for _ in range(levels)]
         i = 0
         counters = [0] * levels
+        restart = r.random() < 0.5
         # outermost runs
         def fill(level, n, prefix):
             nonlocal cols
             if level == levels:
                 return
+            if restart and level > 0:
+                counters[level] = 0
             left = n
             while left > 0:
                 run = r.randint(1, max(1, left)) if r.random() < 0.5 else min(left, r.randint(1, 4))
                 counters[level] += 1
                 label = f"@{'ABCDEFGH'[level]}{counters[level]}"
-                if dividers and r.random() < 0.15:
+                if dividers and r.random() < 0.3:
                     label = "-----"
                 if nulls and r.random() < 0.15:
                     label = None
@@ -183,7 +189,7 @@ class DocGen:
         if r.random() < rich * 0.5:
             a["cell_height"] = shape_value(r, nrow, ncol, lambda: r.choice([0.15, 0.2, 0.25, 0.5]))
         if r.random() < rich * 0.5:
-            a["cell_justification"] = shape_value(r, nrow, ncol, lambda: r.choice(["l", "c", "r"]))
+            a["cell_justification"] = shape_value(r, nrow, ncol, lambda: r.choice(["l", "c", "r", ""]))
         if r.random() < rich * 0.5:
             a["cell_vertical_justification"] = shape_value(r, nrow, ncol, lambda: r.choice(VJUST))
         return a
@@ -274,11 +280,12 @@ class DocGen:
         grouping = {}
         levels = 0
         contiguous = force.get("contiguous", r.random() < 0.9)
-        dividers = r.random() < 0.2
+        dividers = r.random() < 0.35
+        pb_nulls = r.random() < 0.15
         if "page_by" in strategy:
             levels = r.choice([1, 1, 2, 3])
             names = [f"g{l}" for l in range(levels)]
-            vals = self.group_runs(nrows, levels, True, dividers)
+            vals = self.group_runs(nrows, levels, True, dividers, nulls=pb_nulls)
             grouping.update(dict(zip(names, vals, strict=True)))
             body["page_by"] = names if (levels > 1 or r.random() < 0.5) else names[0]
             if r.random() < 0.5:
